@@ -129,6 +129,78 @@ Proof.
   - intro E. apply Hd. rewrite <- E. ring.
 Qed.
 
+(* ---- masked (weighted) global correlation ------------------------------------------------------------------ *)
+Lemma vmap2_nil_r (f : K -> K -> K) (l : vec) : vmap2 f l [] = [].
+Proof. destruct l; reflexivity. Qed.
+
+Lemma vsum_mul3_swap (x w y : vec) : vsum (vmul (vmul x w) y) = vsum (vmul (vmul y w) x).
+Proof.
+  unfold vmul. revert w y. induction x as [|a x IH]; intros w y.
+  - cbn [vmap2]. rewrite ?vmap2_nil_r. reflexivity.
+  - destruct w as [|b w]; [cbn [vmap2]; rewrite ?vmap2_nil_r; reflexivity|].
+    destruct y as [|c y]; [cbn [vmap2]; rewrite ?vmap2_nil_r; reflexivity|].
+    cbn [vmap2 vsum]. rewrite IH. ring.
+Qed.
+
+Lemma ncc_w_symmetric (eps : K) (s t w : vec) : ncc_w eps s t w = ncc_w eps t s w.
+Proof. unfold ncc_w. cbv zeta. rewrite cc_score_sym, (vsum_mul3_swap (wcenter s w) w (wcenter t w)). reflexivity. Qed.
+
+Lemma ncc_w_identical (eps : K) (s w : vec) :
+  let b := vsum (vmul (vmul (wcenter s w) w) (wcenter s w)) in
+  b * b + eps <> 0 -> ncc_w eps s s w = eps / (b * b + eps).
+Proof. cbv zeta. intro H. unfold ncc_w. cbv zeta. apply cc_score_identical. exact H. Qed.
+
+(* samples where the mask is zero are ignored entirely *)
+Lemma som_weighted_sums (m x x' y y' : vec) (mx my : K) :
+  same_on_mask m x x' y y' ->
+  vsum (vmul x m) = vsum (vmul x' m) /\ vsum (vmul y m) = vsum (vmul y' m) /\
+  vsum (vmul (vmul (map (fun a => a - mx) x) m) (map (fun a => a - my) y))
+  = vsum (vmul (vmul (map (fun a => a - mx) x') m) (map (fun a => a - my) y')) /\
+  vsum (vmul (vmul (map (fun a => a - mx) x) m) (map (fun a => a - mx) x))
+  = vsum (vmul (vmul (map (fun a => a - mx) x') m) (map (fun a => a - mx) x')) /\
+  vsum (vmul (vmul (map (fun a => a - my) y) m) (map (fun a => a - my) y))
+  = vsum (vmul (vmul (map (fun a => a - my) y') m) (map (fun a => a - my) y')).
+Proof.
+  unfold vmul.
+  induction 1 as [|m x x' y y' a a' b b' _ IH|m x x' y y' w a b _ IH]; cbn [map vmap2 vsum].
+  - repeat split; reflexivity.
+  - destruct IH as (H1 & H2 & H3 & H4 & H5). rewrite H1, H2, H3, H4, H5. repeat split; ring.
+  - destruct IH as (H1 & H2 & H3 & H4 & H5). rewrite H1, H2, H3, H4, H5. repeat split; reflexivity.
+Qed.
+
+Lemma ncc_mask_zero_ignored (eps : K) (m x x' y y' : vec) :
+  same_on_mask m x x' y y' -> ncc_w eps x y m = ncc_w eps x' y' m.
+Proof.
+  intro H. unfold ncc_w, wcenter, wmean. cbv zeta.
+  destruct (som_weighted_sums m x x' y y' 0 0 H) as (M1 & M2 & _).
+  rewrite <- M1, <- M2.
+  destruct (som_weighted_sums m x x' y y' (vsum (vmul x m) / vsum m) (vsum (vmul y m) / vsum m) H) as (_ & _ & A & B & C).
+  rewrite A, B, C. reflexivity.
+Qed.
+
+(* a mask of ones is no mask *)
+Lemma vmul_ones_gen (x o : vec) : Forall (fun v => v = 1) o -> length o = length x -> vmul x o = x.
+Proof.
+  unfold vmul. intro H. revert x. induction H as [|v o Hv _ IH]; intros [|a x] HL; cbn in HL; try discriminate; [reflexivity|].
+  cbn [vmap2]. rewrite IH by lia. subst v. f_equal. ring.
+Qed.
+
+Lemma ones_spec (n : nat) : Forall (fun v : K => v = 1) (repeat 1 n) /\ length (repeat (1 : K) n) = n /\ vsum (repeat (1 : K) n) = of_nat n.
+Proof.
+  induction n as [|n (A & B & C)]; cbn [repeat length vsum]; [repeat split; constructor|].
+  repeat split; [constructor; [reflexivity | exact A] | f_equal; exact B | rewrite C, (of_nat_S K Kf); ring].
+Qed.
+
+Lemma ncc_w_ones (eps : K) (s t : vec) : length s = length t ->
+  ncc_w eps s t (repeat 1 (length s)) = ncc_one eps s t.
+Proof.
+  intro HL. destruct (ones_spec (length s)) as (A & B & C). set (o := repeat 1 (length s)) in *.
+  unfold ncc_w, ncc_one, wcenter, center, wmean, vmean, dot. cbv zeta. rewrite C.
+  rewrite (vmul_ones_gen s o A B), (vmul_ones_gen t o A) by (rewrite B; exact HL).
+  rewrite !(vmul_ones_gen _ o A) by (rewrite map_length, B; first [reflexivity | exact HL]).
+  rewrite <- HL. reflexivity.
+Qed.
+
 (* ---- the same for the windowed correlation ------------------------------------------------------- *)
 (* every window is non-empty and lies inside the image *)
 Definition nb_ok (n : nat) (nb : nat -> list nat) : Prop :=
